@@ -365,7 +365,7 @@ def history_of(path, index):
 
 
 # which property owns a process abort during which kind of call
-ABORT_OWNER = {"reorder": "C08", "add_vars": "C16"}
+ABORT_OWNER = {"reorder": "C08", "add_vars": "C16", "thread panicked": "C07"}
 
 
 def _kind_tag(hist):
